@@ -399,11 +399,7 @@ func GenerateOneofDiscriminatedUnionType(p Printer, msgName string, info *annota
 			var sb strings.Builder
 			for _, childField := range variant.Field.Message.Fields {
 				jsonName := childField.Desc.JSONName()
-				tsType := TSFieldType(childField)
-				optional := ""
-				if IsOptionalField(childField) {
-					optional = "?"
-				}
+				optional, tsType := inlinedMemberDecl(childField)
 				sb.WriteString(fmt.Sprintf("; %s%s: %s", jsonName, optional, tsType))
 			}
 			branch += sb.String()
@@ -577,13 +573,26 @@ func SnakeToUpperCamel(s string) string {
 func GenerateFlattenedFields(p Printer, childMsg *protogen.Message, prefix string) {
 	for _, childField := range childMsg.Fields {
 		jsonName := prefix + childField.Desc.JSONName()
-		tsType := TSFieldType(childField)
+		// (always optional here, whatever the member's own marker: the child itself may be unset)
+		_, tsType := inlinedMemberDecl(childField)
+		p("  %s?: %s;", jsonName, tsType)
+	}
+}
 
-		if annotations.IsNullableField(childField) {
-			p("  %s?: %s | null;", jsonName, tsType)
-		} else {
-			p("  %s?: %s;", jsonName, tsType)
-		}
+// inlinedMemberDecl returns the optional marker and the type of a message member that is inlined into
+// another declaration (flattened child, flattened oneof variant), by the rules of GenerateFieldDeclaration:
+// a nullable member and a member with empty_behavior NULL may be null on the wire.
+func inlinedMemberDecl(field *protogen.Field) (string, string) {
+	tsType := TSFieldType(field)
+	switch {
+	case annotations.IsNullableField(field):
+		return "", tsType + " | null"
+	case annotations.GetEmptyBehavior(field) == http.EmptyBehavior_EMPTY_BEHAVIOR_NULL:
+		return "?", tsType + " | null"
+	case IsOptionalField(field):
+		return "?", tsType
+	default:
+		return "", tsType
 	}
 }
 
